@@ -22,6 +22,7 @@ package main
 
 import (
 	"context"
+	"encoding/json"
 	"fmt"
 	"math/rand"
 	"os"
@@ -59,9 +60,9 @@ var c04Templates = []c04Tpl{
 	{Name: "w3", Hosts: []string{"host3"}, Tasks: [][2]string{{"ca", "host1"}, {"cb", "host2"}}},
 	{Name: "w12", Hosts: []string{"host1", "host2"}, Tasks: [][2]string{{"cb", "host2"}, {"cc", "host3"}}},
 	{Name: "w23", Hosts: []string{"host2", "host3"}, Tasks: [][2]string{{"ca", "host1"}}},
-	{Name: "w1s", Hosts: []string{"host1"}, Tasks: [][2]string{{"ca", "host1"}, {"cc", "host3"}}, SlowMs: 40},
-	{Name: "w2s", Hosts: []string{"host2"}, Tasks: [][2]string{{"ca", "host1"}, {"cb", "host2"}}, SlowMs: 40},
-	{Name: "w3s", Hosts: []string{"host3"}, Tasks: [][2]string{{"ca", "host1"}, {"cc", "host3"}}, SlowMs: 40},
+	{Name: "w1s", Hosts: []string{"host1"}, Tasks: [][2]string{{"ca", "host1"}, {"cc", "host3"}}, SlowMs: 60},
+	{Name: "w2s", Hosts: []string{"host2"}, Tasks: [][2]string{{"ca", "host1"}, {"cb", "host2"}}, SlowMs: 60},
+	{Name: "w3s", Hosts: []string{"host3"}, Tasks: [][2]string{{"ca", "host1"}, {"cc", "host3"}}, SlowMs: 60},
 }
 
 func (t c04Tpl) dets() []string {
@@ -93,7 +94,7 @@ func c04Files() map[string]string {
 		for i, h := range t.Hosts {
 			q[i] = fmt.Sprintf("\\\"%s\\\"", h)
 		}
-		fmt.Fprintf(&sb, "name: %s\ndefaults:\n  deploy_timeout: \"60s\"\n  hosts: \"[%s]\"\nroles:\n", t.Name, strings.Join(q, ","))
+		fmt.Fprintf(&sb, "name: %s\ndefaults:\n  deploy_timeout: \"6s\"\n  hosts: \"[%s]\"\nroles:\n", t.Name, strings.Join(q, ","))
 		for i, tk := range t.Tasks {
 			fmt.Fprintf(&sb, "  - name: \"t%d\"\n    constraints:\n      - attribute: machine_id\n        value: %q\n    task:\n      load: %s\n      critical: true\n", i, tk[1], tk[0])
 		}
@@ -217,10 +218,10 @@ type c04Hist struct {
 }
 
 type c04Witness struct {
-	Params   c04Params     `json:"history"`
-	What     string        `json:"what"`
-	Focus    interface{}   `json:"focus,omitempty"`
-	Requests []*c04Req     `json:"requests_in_start_order"`
+	Params   c04Params      `json:"history"`
+	What     string         `json:"what"`
+	Focus    interface{}    `json:"focus,omitempty"`
+	Requests []*c04Req      `json:"requests_in_start_order"`
 	Master   []simmesos.Rec `json:"master_records,omitempty"`
 }
 
@@ -311,17 +312,13 @@ func c04Run(c *vlib.Ctx, idx int) {
 		_ = r.Int63() // keep the parent's stream independent of scheduling
 	}
 	wg.Wait()
-	if !s.CoreAlive() {
-		return // finishSim reports the crash
+	if s.CoreAlive() && !h.aborted {
+		waitQuiet(s, 300*time.Millisecond, 10*time.Second)
+		if h.snapshot(s.Client, -1, p.Steps) != nil && s.CoreAlive() {
+			c.Inconclusive(fmt.Sprintf("history %d: final snapshot failed", idx))
+		}
 	}
-	if h.aborted {
-		return
-	}
-	waitQuiet(s, 300*time.Millisecond, 10*time.Second)
-	if h.snapshot(s.Client, -1, p.Steps) != nil {
-		c.Inconclusive(fmt.Sprintf("history %d: final snapshot failed", idx))
-		return
-	}
+	// whatever was recorded is judged: every rule compares recorded instants, none needs the history to be complete
 	h.evaluate()
 }
 
@@ -459,9 +456,9 @@ func (h *c04Hist) client(cl int, r *rand.Rand) {
 		// ---- choose
 		kind := 0 // create
 		if step > 0 {
-			w := []int{28, 30, 22, 6, 14}
+			w := []int{22, 34, 22, 6, 16}
 			if isBarrier[step] {
-				w = []int{55, 10, 25, 4, 6} // simultaneous requests: mostly create vs create vs destroy
+				w = []int{50, 5, 35, 4, 6} // simultaneous requests: mostly create vs create vs destroy
 			}
 			kind = pickW(r, w)
 		}
@@ -478,7 +475,49 @@ func (h *c04Hist) client(cl int, r *rand.Rand) {
 		switch kind {
 		case 0:
 			req.Kind = "create"
-			req.Tpl = c04Templates[r.Intn(len(c04Templates))].Name
+			// 45 %: any template (often one whose detector is in use: refused creations and, when
+			// two such requests coincide, the exclusion check under contention); 55 %: a template whose
+			// detectors look free, so that several environments sharing hosts are alive at once
+			cand := c04Templates
+			if step > 0 && r.Intn(100) < 55 {
+				busy := map[string]bool{}
+				for _, e := range h.envs {
+					if !e.dead {
+						for _, d := range e.Dets {
+							busy[d] = true
+						}
+					}
+				}
+				var free []c04Tpl
+				for _, t := range c04Templates {
+					ok := true
+					for _, d := range t.dets() {
+						if busy[d] {
+							ok = false
+						}
+					}
+					if ok {
+						free = append(free, t)
+					}
+				}
+				if len(free) > 0 {
+					cand = free
+				}
+			}
+			if isBarrier[step] && step > 0 && r.Intn(100) < 50 {
+				// prefer a template with a slow before_DEPLOY hook: a long window between the
+				// creation's pre-deployment cleanup and its task acquisition
+				var slow []c04Tpl
+				for _, t := range cand {
+					if t.SlowMs > 0 {
+						slow = append(slow, t)
+					}
+				}
+				if len(slow) > 0 {
+					cand = slow
+				}
+			}
+			req.Tpl = cand[r.Intn(len(cand))].Name
 		case 1:
 			req.Kind = "control"
 			req.Env = env.ID
@@ -492,7 +531,11 @@ func (h *c04Hist) client(cl int, r *rand.Rand) {
 		case 2:
 			req.Kind = "destroy"
 			req.Env = env.ID
-			req.Op = []string{"plain", "force", "keepTasks", "force+keepTasks", "allowInRunning"}[pickW(r, []int{38, 20, 27, 5, 10})]
+			dw := []int{38, 20, 27, 5, 10}
+			if isBarrier[step] {
+				dw = []int{25, 10, 55, 5, 5}
+			}
+			req.Op = []string{"plain", "force", "keepTasks", "force+keepTasks", "allowInRunning"}[pickW(r, dw)]
 			if env.destroyErr {
 				req.Op = "force"
 			}
@@ -543,7 +586,14 @@ func (h *c04Hist) client(cl int, r *rand.Rand) {
 		h.mu.Unlock()
 
 		// ---- execute
-		ctx, cancel := coresim.Ctx(c04APITimeout)
+		apiTimeout := c04APITimeout
+		if !h.p.Reuse && apiTimeout > 60*time.Second {
+			// nothing a request can legitimately wait for takes longer than deploy_timeout (6 s) here;
+			// with task reuse on, a claimed task that was killed meanwhile costs the hard-coded 120 s
+			// CONFIGURE timeout
+			apiTimeout = 60 * time.Second
+		}
+		ctx, cancel := coresim.Ctx(apiTimeout)
 		var err error
 		switch req.Kind {
 		case "create":
@@ -619,16 +669,37 @@ func (h *c04Hist) client(cl int, r *rand.Rand) {
 			first := !h.aborted
 			h.aborted = true
 			h.mu.Unlock()
+			if !first {
+				return
+			}
+			waitQuiet(h.s, 2*time.Second, 6*time.Second)
+			full := h.s.DumpGoroutines() // SIGQUIT: this ends the core life
 			dump := ""
-			if first {
-				waitQuiet(h.s, 2*time.Second, 6*time.Second)
-				for _, blk := range strings.Split(h.s.DumpGoroutines(), "\ngoroutine ") {
-					if strings.Contains(blk, "RpcServer") || strings.Contains(blk, "task.(*Manager)") || strings.Contains(blk, "environment.(*Manager)") || strings.Contains(blk, "schedulerState") {
-						dump += "goroutine " + blk + "\n"
-					}
+			lost := false
+			for _, blk := range strings.Split(full, "\ngoroutine ") {
+				if strings.Contains(blk, "RpcServer") || strings.Contains(blk, "task.(*Manager)") || strings.Contains(blk, "environment.(*Manager)") || strings.Contains(blk, "schedulerState") {
+					dump += "goroutine " + blk + "\n"
+				}
+				if strings.Contains(blk, "[chan receive") && strings.Contains(blk, "task.(*Manager).acquireTasks(") {
+					lost = true
 				}
 			}
-			h.c.Inconclusive(fmt.Sprintf("history %d: %s request (client %d step %d) did not return within %s; blocked goroutines of the core: %s", h.p.Index, req.Kind, cl, step, c04APITimeout, truncate(dump, 12000)))
+			_ = os.WriteFile(fmt.Sprintf("%s/hang-%03d.txt", h.c.OutDir, h.p.Index), []byte(dump), 0o644)
+			if d := os.Getenv("VERIF_C04_DUMP"); d != "" {
+				h.mu.Lock()
+				b, _ := json.MarshalIndent(map[string]interface{}{"params": h.p, "requests": h.reqs, "master": h.s.Master.Log()}, "", " ")
+				h.mu.Unlock()
+				_ = os.WriteFile(fmt.Sprintf("%s/hang-history-%03d.json", d, h.p.Index), b, 0o644)
+			}
+			if lost {
+				// Attributed, and outside this property: the scheduler reports the outcome of an offers round
+				// with a non-blocking send on an unbuffered channel; when acquireTasks is not yet receiving, the
+				// verdict is lost and acquireTasks waits forever holding the deployment lock, so every later
+				// creation blocks. The history is abandoned; what was recorded so far is still judged.
+				h.c.Count("histories_abandoned_deployment_outcome_lost", 1)
+			} else {
+				h.c.Inconclusive(fmt.Sprintf("history %d: %s request (client %d step %d) did not return within %s; blocked goroutines of the core: %s", h.p.Index, req.Kind, cl, step, apiTimeout, truncate(dump, 3000)))
+			}
 			return
 		}
 		if !h.s.CoreAlive() {
@@ -699,6 +770,11 @@ func (h *c04Hist) evaluate() {
 	h.mu.Unlock()
 	sort.Slice(reqs, func(i, j int) bool { return reqs[i].Start < reqs[j].Start })
 	mlog := h.s.Master.Log()
+	if d := os.Getenv("VERIF_C04_DUMP"); d != "" {
+		// debugging aid: the whole history (requests, snapshots, master log) as JSON
+		b, _ := json.MarshalIndent(map[string]interface{}{"params": h.p, "requests": reqs, "snapshots": snaps, "master": mlog}, "", " ")
+		_ = os.WriteFile(fmt.Sprintf("%s/history-%03d.json", d, h.p.Index), b, 0o644)
+	}
 	mtasks := map[string]simmesos.LaunchedTask{}
 	for _, t := range h.s.Master.Tasks() {
 		mtasks[t.ID] = t
